@@ -13,7 +13,7 @@ Section Bound.
 Variable retry : bool.
 Variable arm : Z -> option Z.
 Variable DMAX : Z.
-Hypothesis arm_lo : forall x a, 0 <= x -> arm x = Some a -> x <= a.
+Hypothesis arm_lo : forall x a, 0 <= x <= DMAX -> arm x = Some a -> x <= a.
 Hypothesis arm_hi : forall x a, 0 <= x <= DMAX -> arm x = Some a -> a < x + MS.
 Hypothesis arm_zero : arm 0 = Some 0.
 Hypothesis arm_some : forall x, 0 <= x -> arm x <> None.
